@@ -1,8 +1,23 @@
 import Bmc.Proofs.C11
 import Bmc.Proofs.C11.Match
+import Bmc.Proofs.GenLoops.BuildAndSend
+import Bmc.Proofs.GenLoops.BuildAndSendCommand
+import Bmc.Proofs.EndToEnd.SessionC11
+import Bmc.Proofs.EndToEnd.SessionlessC11
 #print axioms Bmc.Proofs.C11.session_result_matches_request
 #print axioms Bmc.Proofs.C11.stray_is_retry
 #print axioms Bmc.Proofs.C11.sessionless_result_matches_request
 #print axioms Bmc.Proofs.C11.strays_are_skipped
 #print axioms Bmc.Proofs.C11.isResponseTo_gen_eq
 #print axioms Bmc.Proofs.C11.acceptable_uses_isResponseTo
+#print axioms Bmc.Proofs.GenLoops.V2Session_buildAndSend_gen_eq
+#print axioms Bmc.Proofs.GenLoops.V2Session_buildAndSend_events_eq
+#print axioms Bmc.Proofs.GenLoops.V2Session_buildAndSend_expired_context
+#print axioms Bmc.Proofs.GenLoops.V2Session_SendCommand_gen_eq
+#print axioms Bmc.Proofs.GenLoops.V2Session_SendCommand_events_eq
+#print axioms Bmc.Proofs.GenLoops.V2Sessionless_buildAndSendCommand_gen_eq
+#print axioms Bmc.Proofs.GenLoops.V2Sessionless_buildAndSendCommand_events_eq
+#print axioms Bmc.Proofs.GenLoops.V2Sessionless_SendCommand_gen_eq
+#print axioms Bmc.Proofs.GenLoops.V2Sessionless_SendCommand_events_eq
+#print axioms Bmc.Proofs.EndToEnd.generated_loop_result_matches_request
+#print axioms Bmc.Proofs.EndToEnd.generated_sessionless_loop_result_matches_request
